@@ -1251,6 +1251,8 @@ class Engine:
 
     def cast(self, st, ins, a, where):
         op = ins.op
+        if isinstance(a, Quot) and op in ('fptosi', 'fptoui'):
+            a = zreal(a)   # materialise the lazily divided value
         fr_t = self.mod.resolve(ins.ops[0].ty)
         to = self.mod.resolve(ins.ty)
         if a is UNDEF:
@@ -1323,6 +1325,7 @@ class Engine:
     # ---------------------------------------------------------- calls
     def do_intrinsic(self, st, fr, ins, name, args, where):
         base = name.split('.')[1]
+        args = [zreal(x) if isinstance(x, Quot) else x for x in args]
         if base in ('lifetime', 'dbg', 'assume', 'experimental', 'invariant', 'donothing', 'prefetch', 'var',
                     'annotation', 'sideeffect', 'stackrestore'):
             return None
@@ -1488,6 +1491,7 @@ class Engine:
         raise Unsupported('typeid of symbolic pointer')
 
     def libm(self, st, name, args, where):
+        args = [zreal(x) if isinstance(x, Quot) else x for x in args]
         a = args[0]
         if isinstance(a, tuple):
             raise Unsupported('libm on inf/nan')
@@ -1709,10 +1713,19 @@ class Engine:
         self.assert_seen = []
         self.outputs = []
         self.final_states = []
-        work = {self.key_of(st): st}
+        # opt-in (registry symex={'no_merge': True}): plain path enumeration, states reaching the same program point are
+        # kept apart (a list per key) instead of merged - for kernels whose merged values (ite terms under products) are
+        # what the solver cannot digest while the individual paths are few and simple
+        nomerge = bool(self.opts.get('no_merge'))
+        work = {self.key_of(st): [st] if nomerge else st}
         while work:
             key = min(work)
             st = work.pop(key)
+            if nomerge:
+                rest = st
+                st = rest.pop()
+                if rest:
+                    work[key] = rest
             outs = self.step_block(st)
             for s2 in outs:
                 if s2.pc is False:
@@ -1723,7 +1736,9 @@ class Engine:
                 k2 = self.key_of(s2)
                 other = work.get(k2)
                 if other is None:
-                    work[k2] = s2
+                    work[k2] = [s2] if nomerge else s2
+                elif nomerge:
+                    other.append(s2)
                 else:
                     work[k2] = self.merge(other, s2)
         return self.obls
@@ -2021,6 +2036,8 @@ class Engine:
                     'atan2', 'floor', 'ceil', 'fabs', 'cosh', 'sinh', 'tanh', 'lgamma', 'tgamma', 'fmod'):
             if name == 'fabs':
                 a = args[0]
+                if isinstance(a, Quot):
+                    a = zreal(a)
                 return abs(a) if is_conc(a) else z3.If(a >= 0, a, -a)
             return self.libm(st, name, args, where)
         if name == '__cxa_allocate_exception':
